@@ -57,6 +57,11 @@ int vrt_is_freed(const void *p);
 void vrt_poison(const void *p, size_t n);
 
 
+/* notebook (uninstrumented): bookkeeping stores that must not act as plain stores of the program */
+void vrt_note_set(int i, unsigned long v);
+unsigned long vrt_note_get(int i);
+unsigned long vrt_note_inc(int i);
+
 /* suppress announcements/scheduling points of the calling thread (oracle code at the end) */
 void vrt_quiet_begin(void);
 void vrt_quiet_end(void);
